@@ -33,3 +33,30 @@ contract(E + "@verdict", props=["C03", "C06"],
                                         "formula.kind == 5 and result.val == 1 and exists(i, 0, len(verdicts), verdicts[i].val == 1))"},
          path_hints={"ghost_exprs": {GEN: "verdicts"}},
          crosscheck=False)
+
+
+# ---- quantifier-elimination strategy: semantic predicates (C03) ----------------------------------------------------
+# evaluate_predicates_action decides a SemanticPredicateFormula from the predicate's own verdict r (ghost: the result
+# of formula.evaluate(graph), view of C20_predicates.py): FALSE -> the formula `false`, TRUE -> `true`, and only a
+# predicate that is NOT READY is left open (Python False = "not evaluable here").  Proved from the real text, so a
+# verdict FALSE can never be mistaken for "not ready" (which would turn it into a free Boolean).
+SPR_ = "Rec:SemPredEvalResult"
+for nm, k in (("ready", "self.kind != 2"), ("true", "self.kind == 1"), ("false", "self.kind == 0")):
+    contract("isla/language.py::SemPredEvalResult." + nm, props=["C03", "C20"], types={"self": SPR_}, returns="Bool",
+             result_is=k, assumed=True,
+             why_assumed="one-line accessors of the @dataclass (`self.result is not None` / `is True` / `is False`) in the "
+                         "abstract view kind 0 = False, 1 = True, 2 = None, 3 = binding")
+contract("isla/evaluator.py::evaluate_predicates_action@semantic", props=["C03"],
+         types={"formula": "Rec:Formula", "reference_tree": "Any", "graph": "Any"}, closure={"r": SPR_},
+         returns="Any",
+         requires="formula.kind == 9 and 0 <= r.kind and r.kind <= 2",
+         ensures={"only_not_ready_is_left_open": "(r.kind == 2) == is_pybool(result)",
+                  "not_ready_is_python_false": "implies(r.kind == 2, result == False)",
+                  "false_becomes_false": "implies(r.kind == 0, is_record(result, 'Formula') and result.kind == 0 and "
+                                         "result.is_false and not result.is_true)",
+                  "true_becomes_true": "implies(r.kind == 1, is_record(result, 'Formula') and result.kind == 0 and "
+                                       "result.is_true and not result.is_false)"},
+         path_hints={"calls": {"formula.evaluate(graph)": "r", "sc.true()": "call:true|", "sc.false()": "call:false|"}},
+         crosscheck=False,
+         note="binding results (kind 3: numeric constants) build an SMT equation through dict/z3 operations outside the "
+              "subset -- excluded by the pre-condition, covered by bounded C03")
